@@ -71,8 +71,8 @@ struct QsHarness : HarnessBase {
 	void reset() {
 		g_h = this;
 		AUNPOISON(&w, sizeof w);
-		memset(&w, 0, sizeof w);
-		new(w.dom) Domain();
+		memset(&w, 0xA5, sizeof w);   // domain, agents and nodes are built in storage that is not all-zero
+		new(w.dom) Domain;
 		// (private members are reachable because this harness is built with -fno-access-control)
 		if(base) { dom()._qs_counter.store(base, std::memory_order_relaxed); dom()._desired_qs_counter.store(base - 1, std::memory_order_relaxed); }
 		r = Ref{};
@@ -107,7 +107,7 @@ struct QsHarness : HarnessBase {
 		case QS: agent(i).quiescent_state(); covered(i); break;
 		case AWAIT: {
 			int n = r.nused[i]++;
-			Node *nd = new(w.nodes[i][n]) Node(); nd->agent = i; nd->idx = n; nd->on_grace_period = &on_grace;
+			Node *nd = new(w.nodes[i][n]) Node; nd->agent = i; nd->idx = n; nd->on_grace_period = &on_grace;
 			unsigned char mask = 0; for(int x = 0; x < NA; x++) if(r.online[x]) mask |= 1u << x;
 			r.need[i][n] = mask; r.pending[i][n] = 1;
 			agent(i).await_barrier(nd); break;
